@@ -316,8 +316,10 @@ class ShareableThreadLock:
                 self._acquired_by[thread_id] -= 1
                 if not self._acquired_by[thread_id]:
                     del self._acquired_by[thread_id]  # NOTE: GC
-                    if not self._acquired_by:
-                        self._condition.notify_all()
+                    # NOTE: Always notify: a waiter that itself holds the lock
+                    # shared (upgrade) waits for all *other* threads to leave,
+                    # not for the table to become empty.
+                    self._condition.notify_all()
             finally:
                 self._condition.release()
 
